@@ -49,23 +49,23 @@ int main()
   Obl o3{"named.json_line", "C19", "", "the JSON sink writes exactly one single-line object per statement: the fixed fields, the original template as message (newlines replaced by spaces) and the pairs in order"};
   std::vector<int> as = {0, -7, 123456}; std::vector<double> bs = {0.0, 3.14159, -2.5}; std::vector<std::string> cs = {"", "hello", "with space"};
   long n = 0; std::vector<Expect> expects;
-  for (int order = 0; order < 2; ++order) for (int pass = 0; pass < 2; ++pass) for (int a : as) for (double b : bs) for (std::string const& c : cs)
-  {
-    for (int k0 = 0; k0 < 8; ++k0)
+  auto emit = [&](int k, int a, double b, std::string const& c) {
+    ++n;
+    switch (k)
     {
-      int k = order == 0 ? k0 : 7 - k0;   // the second order sees the templates in reverse for the first time... (same cache keys: also cached use)
-      ++n;
-      switch (k)
-      {
 #define X(IDX, TMPL, POS, KV, ...) \
       case IDX: { LOG_INFO(lg, TMPL, __VA_ARGS__); Expect e; e.tmpl = TMPL; e.message = fmtquill::format(POS, __VA_ARGS__); \
                   std::vector<std::pair<std::string, std::string>> specs KV; size_t i_ = 0; auto add = [&](auto const& v) { e.kv.push_back({specs[i_].first, fmtquill::format(fmtquill::runtime(specs[i_].second), v)}); ++i_; }; \
                   (void)add; [&](auto const&... vs) { (add(vs), ...); }(__VA_ARGS__); expects.push_back(e); break; }
-        TEMPLATES(X)
+      TEMPLATES(X)
 #undef X
-      }
     }
-  }
+  };
+  for (int order = 0; order < 2; ++order) for (int pass = 0; pass < 2; ++pass) for (int a : as) for (double b : bs) for (std::string const& c : cs)
+    for (int k0 = 0; k0 < 8; ++k0) emit(order == 0 ? k0 : 7 - k0, a, b, c);   // the second order sees the templates in reverse for the first time... (same cache keys: also cached use)
+  // every ordered PAIR of templates back to back: whatever the backend keeps from one statement (parsed template, generated value
+  // format string, buffers) must not leak into the next one - e.g. two templates with the same number of arguments but different specs
+  for (int i = 0; i < 8; ++i) for (int j = 0; j < 8; ++j) { emit(i, -7, 3.14159, "hello"); emit(j, 123456, -2.5, "with space"); }
   current_case("poll");
   backend->poll(); backend->poll_one();
   json->flush_sink();
@@ -86,7 +86,7 @@ int main()
     }
   }
   fs::remove_all(base);
-  printf("SPACE 8 templates (literal text, escaped braces, specs, dotted names, newline, adjacent fields) x 27 value tuples x 2 orders x 2 passes (the first pass of the first order sees every template for the first time, all later uses hit the per-format-string cache), text and pairs from a recording sink, lines from a real JsonFileSink\n");
+  printf("SPACE 8 templates (literal text, escaped braces, specs, dotted names, newline, adjacent fields) x 27 value tuples x 2 orders x 2 passes + every ordered pair of templates back to back (the first pass of the first order sees every template for the first time, all later uses hit the per-format-string cache), text and pairs from a recording sink, lines from a real JsonFileSink\n");
   printf("DISTINCT %ld\n", n);
   printf("SAMPLE {{{a}}} a=-7\n");
   report(o1); report(o2); report(o3);
